@@ -4,5 +4,5 @@ CONSTANTS
   Big = TRUE
 INIT Init
 NEXT Next
-INVARIANTS LawAdmissible LawDetermined LawFinalIssuer LawCrossKept LawFieldsVerbatim Export
+INVARIANTS LawAdmissible LawDetermined LawFinalIssuer LawCrossKept LawFieldsVerbatim LawEkuMembership Export
 CHECK_DEADLOCK FALSE
